@@ -4,6 +4,7 @@ import GqlProofs.Grammar.PrintQuery
 import GqlProofs.Parser.SoundTop
 import GqlProofs.Parser.RetQuery
 import GqlProofs.Parser.CompleteTop
+import GqlProofs.Grammar.Complete
 /-
   C05 — the query parser accepts exactly the executable grammar, faithfully.
 
@@ -258,11 +259,10 @@ theorem C05_parse_sound (inp : Bytes) (doc : QueryDoc) (h : parseQuery 0 inp = .
   obtain ⟨d, wf⟩ := h5 hne
   exact ⟨_, tokensOf_of_done h1 h2 h3, ⟨_, d⟩, d, wf⟩
 
-/- Tree faithfulness with the recogniser's `canonical`: see `C05_parse_faithful_canonical` below
-   (`canonical … ts = some out → out = printQuery doc`), proved through the completeness theorem
-   `C05_parse_complete_canonical`.  What remains open is only the matcher's own completeness at its
-   standard fuel, `Derivable gql n ts → (canonical gql n ts).isSome` — a fact about `matchSym`
-   and the grammar tables, not about the parser. -/
+/- Tree faithfulness with the recogniser's `canonical`: `C05_parse_sound_canonical` below
+   (`canonical gql .executableDocument ts = some (printQuery doc)`), through the completeness
+   theorem `C05_parse_complete_canonical` and the recogniser's completeness
+   `C05_recognises_complete`. -/
 
 /-- … under any token limit (a parse that succeeds under a limit is the unlimited parse) -/
 theorem C05_parse_sound_limit (L : Nat) (inp : Bytes) (doc : QueryDoc) (h : parseQuery L inp = .ok doc)
@@ -496,6 +496,33 @@ theorem C05_parse_faithful (inp : Bytes) (doc : QueryDoc) (h : parseQuery 0 inp 
   cases p
   exact e.symm
 
+/-- the recogniser is complete at its standard fuel `64 * (length + 2)`
+    (`GqlProofs/Grammar/Complete.lean`: derivation heights are linear in the number of tokens) … -/
+theorem C05_recognises_complete (ts : List Tok) (h : Derivable gql .executableDocument ts) : isExecutable ts = true :=
+  recognises_complete _ ts h
+
+/-- … so the executable specification side of the check DECIDES the grammar -/
+theorem C05_recognises_iff (ts : List Tok) : isExecutable ts = true ↔ Derivable gql .executableDocument ts :=
+  recognises_iff _ ts
+
+/-- **`C05_parse_sound` with the recogniser's `canonical`**: for an accepted non-empty document the
+    recogniser returns a canonical form of the token sequence, and it IS the unparse of the tree. -/
+theorem C05_parse_sound_canonical (inp : Bytes) (doc : QueryDoc) (h : parseQuery 0 inp = .ok doc)
+    (hne : doc.ops ≠ [] ∨ doc.frags ≠ []) :
+    ∃ ts, tokensOf inp = some ts ∧ canonical gql .executableDocument ts = some (printQuery doc) ∧ WFQuery doc := by
+  obtain ⟨ts, h1, h2, _, h4⟩ := C05_parse_sound inp doc h hne
+  obtain ⟨out, ho⟩ := canonical_complete _ ts h2
+  exact ⟨ts, h1, by rw [ho, C05_parse_faithful_canonical inp doc h ts out h1 ho], h4⟩
+
+/-- **the runtime comparison of the check C05, proved**: `ParseQuery` returns a non-empty document
+    iff the input lexes and the recogniser accepts its token sequence -/
+theorem C05_accepts_iff_recognises (inp : Bytes) :
+    (∃ d, parseQuery 0 inp = .ok d ∧ (d.ops ≠ [] ∨ d.frags ≠ [])) ↔ ∃ ts, tokensOf inp = some ts ∧ isExecutable ts = true := by
+  rw [C05_accepts_exactly]
+  constructor
+  · rintro ⟨ts, h1, h2⟩; exact ⟨ts, h1, C05_recognises_complete ts h2⟩
+  · rintro ⟨ts, h1, h2⟩; exact ⟨ts, h1, (C05_recognises_iff ts).1 h2⟩
+
 /-- the pieces (each: derivable token list at the head of the stream ⇒ the program ends live,
     consumes it, and the unparse of the result is the canonical output of the derivation) -/
 theorem C05_parse_complete_value (c : Bool) (n : Nat) (ts o : List Tok) (hok : TsOK ts)
@@ -585,3 +612,6 @@ theorem C05_parse_complete_fragment_definition (n : Nat) (ts o : List Tok) (hok 
 #print axioms C05_parse_faithful_canonical
 #print axioms C05_parse_faithful
 #print axioms C05_parse_complete_selection
+#print axioms C05_recognises_iff
+#print axioms C05_parse_sound_canonical
+#print axioms C05_accepts_iff_recognises
